@@ -8,6 +8,7 @@ import (
 	"fmt"
 	"go/token"
 	"go/types"
+	"sort"
 	"strings"
 
 	"golang.org/x/tools/go/ssa"
@@ -140,18 +141,147 @@ func refOf(t string, typ types.Type) string {
 
 func (f *Frame) loopInvariants(li *loopInfo) []*Clause {
 	var out []*Clause
-	fc := f.contract
-	if fc == nil {
-		fc = f.enc.prog.contractFor(f.fn)
-	}
+	fc, idx := f.loopBinding(li)
 	if fc != nil {
 		for _, c := range fc.Invs {
-			if c.Loop == li.ordinal {
+			if c.Loop == idx {
 				out = append(out, c)
 			}
 		}
 	}
 	return out
+}
+
+// loopBinding: the contract and the loop index whose `loop k` clauses speak about loop li of this
+// frame. Normally the frame's own contract and the loop's ordinal. When the verified function has
+// handed loops to helpers that carry no contract of their own (extract-method), the clauses are
+// counted over the function's loops and those helpers' loops in source order (flatSlots).
+func (f *Frame) loopBinding(li *loopInfo) (*FuncContract, int) {
+	fc := f.contract
+	if fc == nil {
+		fc = f.enc.prog.contractFor(f.fn)
+	}
+	if fc != nil {
+		if f.parent == nil {
+			if m := f.enc.flatSlots(); m != nil {
+				return fc, m.own[li.ordinal]
+			}
+		}
+		return fc, li.ordinal
+	}
+	if f.parent != nil && f.parent.parent == nil && f.callSite != nil {
+		if m := f.enc.flatSlots(); m != nil {
+			if idx, ok := m.callee[flatKey{f.callSite, li.ordinal}]; ok {
+				return f.enc.topFC, idx
+			}
+		}
+	}
+	return nil, 0
+}
+
+type flatKey struct {
+	call ssa.Instruction
+	sub  int
+}
+
+type flatMap struct {
+	own    map[int]int
+	callee map[flatKey]int
+}
+
+func countLoops(fn *ssa.Function) int {
+	heads := map[*ssa.BasicBlock]bool{}
+	for _, b := range fn.Blocks {
+		for _, s := range b.Succs {
+			if s.Dominates(b) {
+				heads[s] = true
+			}
+		}
+	}
+	return len(heads)
+}
+
+func loopPos(li *loopInfo) token.Pos {
+	var min token.Pos
+	for b := range li.body {
+		for _, ins := range b.Instrs {
+			if p := ins.Pos(); p.IsValid() && (min == 0 || p < min) {
+				min = p
+			}
+		}
+	}
+	return min
+}
+
+func (e *Enc) flatSlots() *flatMap {
+	if e.flatDone {
+		return e.flat
+	}
+	e.flatDone = true
+	top, fc := e.topFrame, e.topFC
+	if top == nil || fc == nil {
+		return nil
+	}
+	max := -1
+	for _, c := range fc.Invs {
+		if c.Loop > max {
+			max = c.Loop
+		}
+	}
+	for _, c := range fc.Decs {
+		if c.Loop > max {
+			max = c.Loop
+		}
+	}
+	if max < 0 || max+1 == len(top.loops) {
+		return nil
+	}
+	type slot struct {
+		pos  token.Pos
+		sub  int
+		own  int
+		call ssa.Instruction
+	}
+	var slots []slot
+	for _, li := range top.loops {
+		slots = append(slots, slot{pos: loopPos(li), own: li.ordinal})
+	}
+	helpers := 0
+	for _, b := range top.fn.Blocks {
+		for _, ins := range b.Instrs {
+			ci, ok := ins.(*ssa.Call)
+			if !ok {
+				continue
+			}
+			callee := ci.Call.StaticCallee()
+			if callee == nil || len(callee.Blocks) == 0 || !isRepoPkg(pkgPathOf(callee)) || e.prog.contractFor(callee) != nil {
+				continue
+			}
+			for j := 0; j < countLoops(callee); j++ {
+				slots = append(slots, slot{pos: ci.Pos(), sub: j, own: -1, call: ci})
+				helpers++
+			}
+		}
+	}
+	if helpers == 0 || len(slots) != max+1 {
+		return nil
+	}
+	sort.SliceStable(slots, func(i, j int) bool {
+		if slots[i].pos != slots[j].pos {
+			return slots[i].pos < slots[j].pos
+		}
+		return slots[i].sub < slots[j].sub
+	})
+	m := &flatMap{own: map[int]int{}, callee: map[flatKey]int{}}
+	for i, s := range slots {
+		if s.own >= 0 {
+			m.own[s.own] = i
+		} else {
+			m.callee[flatKey{s.call, s.sub}] = i
+		}
+	}
+	e.flat = m
+	return m
 }
 
 // rangeLenOf finds the length operand of a range-over-slice loop.
@@ -230,6 +360,12 @@ func (f *Frame) enterLoop(li *loopInfo, cur *State) {
 			Label: "auto.range", Text: "-1 <= rangeindex < len", Guard: guard, Goal: and("(bvsle #xffffffffffffffff "+x+")", or("(bvslt "+x+" "+ln+")", eq(x, "#xffffffffffffffff"))), Pos: f.posOfBlock(h)})
 	}
 
+	if bt, ok := f.idxBoundTerm(li); ok {
+		x := entryVals[li.idxPhi].T
+		e.addObl(&Obligation{Name: fmt.Sprintf("%s#inv[loop %d].entry[auto.index]", f.prefix, li.ordinal), Kind: "inv.entry", Func: f.prefix,
+			Label: "auto.index", Text: "0 <= i <= bound", Guard: guard, Goal: idxInv(x, bt), Pos: f.posOfBlock(h)})
+	}
+
 	// slice / map / pointer variables built up by the loop from allocations of this function stay
 	// fresh (not among the objects that existed at entry) -- needed by frame obligations only
 	var autoFresh []*ssa.Phi
@@ -248,6 +384,10 @@ func (f *Frame) enterLoop(li *loopInfo, cur *State) {
 			r := refOf(entryVals[phi].T, phi.Type())
 			e.addObl(&Obligation{Name: fmt.Sprintf("%s#inv[loop %d].entry[auto.fresh %s]", f.prefix, li.ordinal, phi.Comment), Kind: "inv.entry", Func: f.prefix,
 				Label: "auto.fresh", Text: phi.Comment + " is nil or was allocated by this call", Guard: guard, Goal: or(eq(r, "nil"), not(sel("alloc!0", r))), Pos: f.posOfBlock(h)})
+			if e.memoUsed {
+				e.addObl(&Obligation{Name: fmt.Sprintf("%s#inv[loop %d].entry[auto.unshared %s]", f.prefix, li.ordinal, phi.Comment), Kind: "inv.entry", Func: f.prefix,
+					Label: "auto.unshared", Text: phi.Comment + " is not storage returned by a pure function", Guard: guard, Goal: or(eq(r, "nil"), not(c.memoBorn(r))), Pos: f.posOfBlock(h)})
+			}
 		}
 	}
 	li.autoFresh = autoFresh
@@ -331,6 +471,12 @@ func (f *Frame) enterLoop(li *loopInfo, cur *State) {
 	for _, phi := range autoFresh {
 		r := refOf(li.phiVal[phi].T, phi.Type())
 		c.assert(implies(guard, or(eq(r, "nil"), not(sel("alloc!0", r)))))
+		if e.memoUsed {
+			c.assert(implies(guard, or(eq(r, "nil"), not(c.memoBorn(r)))))
+		}
+	}
+	if bt, ok := f.idxBoundTerm(li); ok {
+		c.assert(implies(guard, idxInv(li.phiVal[li.idxPhi].T, bt)))
 	}
 	li.headSt = cur.clone()
 }
@@ -384,19 +530,24 @@ func (f *Frame) backEdge(li *loopInfo, from *ssa.BasicBlock, cur *State) {
 		e.addObl(&Obligation{Name: fmt.Sprintf("%s#inv[loop %d].preserve[auto.range]", f.prefix, li.ordinal), Kind: "inv.preserve", Func: f.prefix,
 			Label: "auto.range", Text: "-1 <= rangeindex < len", Guard: guard, Goal: and("(bvsle #xffffffffffffffff "+x+")", "(bvslt "+x+" "+ln+")"), Pos: f.posOfBlock(h)})
 	}
+	if bt, ok := f.idxBoundTerm(li); ok {
+		e.addObl(&Obligation{Name: fmt.Sprintf("%s#inv[loop %d].preserve[auto.index]", f.prefix, li.ordinal), Kind: "inv.preserve", Func: f.prefix,
+			Label: "auto.index", Text: "0 <= i <= bound", Guard: guard, Goal: idxInv(back[li.idxPhi].T, bt), Pos: f.posOfBlock(h)})
+	}
 	for _, phi := range li.autoFresh {
 		r := refOf(back[phi].T, phi.Type())
 		e.addObl(&Obligation{Name: fmt.Sprintf("%s#inv[loop %d].preserve[auto.fresh %s]", f.prefix, li.ordinal, phi.Comment), Kind: "inv.preserve", Func: f.prefix,
 			Label: "auto.fresh", Text: phi.Comment + " is nil or was allocated by this call", Guard: guard, Goal: or(eq(r, "nil"), not(sel("alloc!0", r))), Pos: f.posOfBlock(h)})
+		if e.memoUsed {
+			e.addObl(&Obligation{Name: fmt.Sprintf("%s#inv[loop %d].preserve[auto.unshared %s]", f.prefix, li.ordinal, phi.Comment), Kind: "inv.preserve", Func: f.prefix,
+				Label: "auto.unshared", Text: phi.Comment + " is not storage returned by a pure function", Guard: guard, Goal: or(eq(r, "nil"), not(e.ctx.memoBorn(r))), Pos: f.posOfBlock(h)})
+		}
 	}
 	// decreases
-	fc := f.contract
-	if fc == nil {
-		fc = e.prog.contractFor(f.fn)
-	}
+	fc, bidx := f.loopBinding(li)
 	if fc != nil {
 		for _, d := range fc.Decs {
-			if d.Loop != li.ordinal {
+			if d.Loop != bidx {
 				continue
 			}
 			li.phiVal = saved
@@ -553,6 +704,16 @@ func (f *Frame) scanCallMods(cc *ssa.CallCommon, ms *modSet, seen map[*ssa.Funct
 	}
 	if fc != nil && !fc.inlineOnly() {
 		if fc.Pure {
+			if fc.freshResults() != nil {
+				// memoising call: the ghost sets grow (by objects that did not exist before the loop)
+				mk := memoKeyOf(fc)
+				ms.heaps["ponce$"+mk] = "(Array Ref Bool)"
+				ms.heaps["pshared"] = "(Array Ref Bool)"
+				ms.heaps["pbt$"+mk] = "(Array Ref " + sortTok + ")"
+				for j, a := range cc.Args {
+					ms.heaps[fmt.Sprintf("pba$%s$%d", mk, j)] = "(Array Ref " + c.sortOf(a.Type()) + ")"
+				}
+			}
 			return
 		}
 		if fc.NoFrame || !f.enc.modGiven(fc) {
@@ -835,7 +996,7 @@ func (f *Frame) noteWrite(st *State, a *Addr, ins ssa.Instruction) {
 	if !fresh {
 		f.enc.bumpTok(st)
 	}
-	f.frameObl(a.Base, instrSrc(f.enc.prog, ins), ins)
+	f.frameObl(a.Base, instrSrc(f.enc.prog, ins), ins, f.enc.ctx.addrHeap(a))
 	f.ownObl(a.Base, instrSrc(f.enc.prog, ins), ins, false)
 }
 
@@ -854,42 +1015,58 @@ func (f *Frame) noteMapWrite(st *State, m *Val, ins ssa.Instruction) {
 	if !fresh {
 		f.enc.bumpTok(st)
 	}
-	f.frameObl(m.T, instrSrc(f.enc.prog, ins), ins)
+	f.frameObl(m.T, instrSrc(f.enc.prog, ins), ins, f.enc.ctx.refHeap(m.Typ))
 	f.ownObl(m.T, instrSrc(f.enc.prog, ins), ins, true)
 }
 
 // frameObl: a write target must be fresh in the verified call, or be listed
 // in the function's modifies clause.
-func (f *Frame) frameObl(base, what string, ins ssa.Instruction) {
+func (f *Frame) frameObl(base, what string, ins ssa.Instruction, heap ...string) {
 	e := f.enc
-	if !e.frameOn || e.topFC == nil || !e.modGiven(e.topFC) || e.topFC.NoFrame {
-		return
-	}
-	goal := not(sel("alloc!0", base))
-	e.heapInit("alloc", "(Array Ref Bool)", 0)
+	framed := e.frameOn && e.topFC != nil && e.modGiven(e.topFC) && !e.topFC.NoFrame
+	// the objects the verified function may write according to its modifies clause (they existed at entry)
 	var allowed []string
-	top := e.topFrame
-	for _, m := range e.topFC.Modifies {
-		if m.Op == "call" && len(m.Args) == 2 && m.Args[0].Op == "id" && m.Args[0].Name == "global" {
-			if g := e.globalNamed(e.topFC.PkgPath, m.Args[1]); g != nil {
-				allowed = append(allowed, eq(base, top.val(g).T))
+	if framed || (e.memoUsed && e.topFC != nil) {
+		top := e.topFrame
+		for _, m := range e.topFC.Modifies {
+			if m.Op == "call" && len(m.Args) == 2 && m.Args[0].Op == "id" && m.Args[0].Name == "global" {
+				if g := e.globalNamed(e.topFC.PkgPath, m.Args[1]); g != nil {
+					allowed = append(allowed, eq(base, top.val(g).T))
+				}
+				continue
 			}
-			continue
-		}
-		if m.Op == "call" && len(m.Args) == 2 {
-			env := top.funcEnv(top.entrySt, top.entrySt)
-			v, err := env.eval(m.Args[1])
-			if err == nil {
-				switch m.Args[0].Name {
-				case "mapcontent", "deref":
-					allowed = append(allowed, eq(base, v.T))
-				case "elems":
-					allowed = append(allowed, eq(base, "(s.arr "+v.T+")"))
+			if m.Op == "call" && len(m.Args) == 2 {
+				env := top.funcEnv(top.entrySt, top.entrySt)
+				v, err := env.eval(m.Args[1])
+				if err == nil {
+					switch m.Args[0].Name {
+					case "mapcontent", "deref":
+						allowed = append(allowed, eq(base, v.T))
+					case "elems":
+						allowed = append(allowed, eq(base, "(s.arr "+v.T+")"))
+					}
 				}
 			}
 		}
 	}
-	goal = or(append([]string{goal}, allowed...)...)
+	if e.memoUsed && f.curSt != nil {
+		// storage a memoising call has handed out twice stands for two objects: never written.
+		// Not such storage: what existed at entry (the modifies targets), what an ordinary
+		// allocation made, and objects of another kind (kept in another heap).
+		goal := or(not(e.ctx.memoBorn(base)), not(sel(e.memoHeap(f.curSt, "pshared"), base)))
+		if len(heap) == 1 {
+			goal = or(goal, not(eq("(rtag "+base+")", e.ctx.rtagID(heap[0]))))
+		}
+		goal = or(append([]string{goal}, allowed...)...)
+		e.addObl(&Obligation{Name: fmt.Sprintf("%s#memo[%s]", e.unit, frameSite(f, what)), Kind: "frame", Func: f.prefix, Label: what,
+			Text: "write target is not storage that a pure function returned more than once: " + what,
+			Guard: f.guard(), Goal: goal, Pos: f.posOf(ins)})
+	}
+	if !framed {
+		return
+	}
+	e.heapInit("alloc", "(Array Ref Bool)", 0)
+	goal := or(append([]string{not(sel("alloc!0", base))}, allowed...)...)
 	e.addObl(&Obligation{Name: fmt.Sprintf("%s#frame[%s]", e.unit, frameSite(f, what)), Kind: "frame", Func: f.prefix, Label: what, Text: "write target is fresh or in modifies: " + what,
 		Guard: f.guard(), Goal: goal, Pos: f.posOf(ins)})
 }
@@ -923,7 +1100,15 @@ func valueParent(v ssa.Value) *ssa.Function {
 }
 
 func (f *Frame) invTag(li *loopInfo, cl *Clause) string {
-	return fmt.Sprintf("inv:%s:%d:%s", f.prefix, li.ordinal, clauseLabel(cl))
+	fc, idx := f.loopBinding(li)
+	return invTagOf(fc, idx, cl)
+}
+
+func invTagOf(fc *FuncContract, idx int, cl *Clause) string {
+	if fc == nil {
+		return "inv:?"
+	}
+	return fmt.Sprintf("inv:%s:%d:%d:%s", fc.Name, fc.Line, idx, clauseLabel(cl))
 }
 
 // skipTagsFor: the loop invariants of this function a clause with `uses [...]` does not assume
@@ -936,6 +1121,9 @@ func (f *Frame) skipTagsFor(cl *Clause, self string) map[string]bool {
 	if fc == nil {
 		fc = f.enc.prog.contractFor(f.fn)
 	}
+	if fc == nil && f.parent != nil {
+		fc = f.enc.topFC // clauses borrowed from the verified function (see loopBinding)
+	}
 	if fc == nil {
 		return nil
 	}
@@ -946,8 +1134,45 @@ func (f *Frame) skipTagsFor(cl *Clause, self string) map[string]bool {
 	skip := map[string]bool{}
 	for _, inv := range fc.Invs {
 		if l := clauseLabel(inv); !keep[l] {
-			skip[fmt.Sprintf("inv:%s:%d:%s", f.prefix, inv.Loop, l)] = true
+			skip[invTagOf(fc, inv.Loop, inv)] = true
 		}
 	}
 	return skip
+}
+
+// idxBoundTerm: the bound of a recognised index loop as a term (nil when the loop is not one).
+func (f *Frame) idxBoundTerm(li *loopInfo) (string, bool) {
+	if li.idxPhi == nil {
+		return "", false
+	}
+	if w, _, ok := intInfo(li.idxPhi.Type()); !ok || w != 64 {
+		return "", false
+	}
+	if li.idxLenOf != nil {
+		v := f.val(li.idxLenOf)
+		switch v.Typ.Underlying().(type) {
+		case *types.Slice:
+			return "(s.len " + v.T + ")", true
+		case *types.Basic:
+			if isString(v.Typ) {
+				return "(slen " + v.T + ")", true
+			}
+		}
+		return "", false
+	}
+	if li.idxBound != nil {
+		v := f.val(li.idxBound)
+		if w, _, ok := intInfo(v.Typ); ok && w == 64 {
+			return v.T, true
+		}
+		return "", false
+	}
+	return "", true // no loop-invariant bound: lower bound only
+}
+
+func idxInv(i, bound string) string {
+	if bound == "" {
+		return "(bvsle #x0000000000000000 " + i + ")"
+	}
+	return and("(bvsle #x0000000000000000 "+i+")", or("(bvsle "+i+" "+bound+")", "(bvslt "+bound+" #x0000000000000000)"))
 }
